@@ -85,6 +85,8 @@ def cases(draw, max_chroms=4, max_bins=6):
         "perm_seed": draw(st.integers(0, 2**16)) if form in ("frame-shuffled", "chunks-ensure-sorted") else None,
         "shuffle": draw(st.sampled_from(["within-rows", "full"])) if form == "chunks-ensure-sorted" else None,
         "junk": draw(st.booleans()),
+        # optional input checks switched off: valid input is stored identically with or without them
+        "checks_off": draw(st.sampled_from([[], [], [], ["boundscheck", "triucheck", "dupcheck"], ["dupcheck"], ["boundscheck", "dupcheck"], ["triucheck"]])),
         "h5opts": draw(gen.H5OPTS),
         "dest": draw(st.sampled_from(["", "", "::/", "::/g", "::g/h", "::/resolutions/100"])),
         "metadata": draw(gen.metadata_docs()),
@@ -201,6 +203,9 @@ def check_roundtrip(case, ctx: Ctx):
     try:
         if case["form"] == "chunks-ensure-sorted":
             kw["ensure_sorted"] = True
+        for flag in case.get("checks_off", []):
+            if flag != "triucheck" or symmetric:
+                kw[flag] = False
         if case["form"] == "arrayloader" and case["junk"]:
             # the same loader object feeds an earlier creation first (binners are re-iterable objects)
             first = ctx.tmp(".cool")
@@ -302,7 +307,7 @@ def check_roundtrip(case, ctx: Ctx):
     nt = len(rows) >= 2 and (nonempty_chunks >= 2 or (diag and off) or set(bt["kinds"]) - {"fixed"}
                              or len(cols) > 1 or bool(case["dtypes"]) or case["h5opts"] is not None)
     ctx.record(case, bool(nt), [
-        "form=" + case["form"], "sym" if symmetric else "square", "cols=" + "+".join(cols),
+        "form=" + case["form"], "checks-off=" + ("+".join(case.get("checks_off", [])) or "none"), "sym" if symmetric else "square", "cols=" + "+".join(cols),
         "dest=" + (case["dest"] or "file"), "empty" if not rows else "nonempty",
         "chunks>=2" if nonempty_chunks >= 2 else "chunks<2",
         "emptychunk" if case["form"].startswith("chunks") and any(not c for c in gen.split_at(rows, case["cuts"])) else "no-emptychunk",
